@@ -69,8 +69,10 @@ RegistryRepr(ps) == LET rs == ReprList(ps) IN IF rs = <<>> THEN "None" ELSE Join
 
 (*************************** the pipeline of this module *******************)
 \*   a (no group, JSON)   <-   g:b (group g, numpy)   <-   h:g:c (groups h:g, pandas; inputs a and g:b)
-\*   plus d (directory data) on a.  Inputs enter the key as  <name relative to own namespace>=<key of input>,
-\*   sorted by the input's full name, joined by ###.
+\*   d (directory data) on a;  a2 (no parameters);  e on a and a2 (names that are prefixes of one another);
+\*   f (parameters, but none persisted when z is at its default);  m (in-memory) on a;  n on m.
+\*   Inputs enter the key as  <name relative to own namespace>=<key of input>, sorted by the input's full name
+\*   (BEFORE formatting), joined by ###.
 VARIABLES va,     \* value of a's parameter x
           yv, zv  \* b's parameters: y (default 5, always persisted), z (default 1, not persisted when default)
 vars == <<va, yv, zv>>
@@ -81,13 +83,16 @@ ParamsOf(task) ==
     [] task = "b" -> <<[name |-> "v", value |-> Int_(7), default |-> <<Int_(0)>>, ignore |-> TRUE, dpd |-> FALSE],
                        [name |-> "y", value |-> Int_(yv), default |-> <<Int_(5)>>, ignore |-> FALSE, dpd |-> FALSE],
                        [name |-> "z", value |-> Int_(zv), default |-> <<Int_(1)>>, ignore |-> FALSE, dpd |-> TRUE]>>
+    [] task = "f" -> <<[name |-> "v", value |-> Int_(7), default |-> <<Int_(0)>>, ignore |-> TRUE, dpd |-> FALSE],
+                       [name |-> "z", value |-> Int_(zv), default |-> <<Int_(1)>>, ignore |-> FALSE, dpd |-> TRUE]>>
     [] OTHER -> <<>>
 \* inputs in the order of their full names
 InputsOf(task) == CASE task = "b" -> <<<<"a", "a">>>> [] task = "c" -> <<<<"a", "a">>, <<"g:b", "b">>>>
-                    [] task = "d" -> <<<<"a", "a">>>> [] OTHER -> <<>>
+                    [] task = "d" -> <<<<"a", "a">>>> [] task = "e" -> <<<<"a", "a">>, <<"a2", "a2">>>>
+                    [] task = "m" -> <<<<"a", "a">>>> [] task = "n" -> <<<<"m", "m">>>> [] OTHER -> <<>>
 GroupOf(task) == CASE task = "b" -> <<"g">> [] task = "c" -> <<"h", "g">> [] OTHER -> <<>>
-ExtOf(task)   == CASE task = "a" -> ".json" [] task = "b" -> ".npy" [] task = "c" -> ".pd" [] task = "d" -> ""
-Tasks == {"a", "b", "c", "d"}
+ExtOf(task)   == CASE task = "b" -> ".npy" [] task = "c" -> ".pd" [] task = "d" -> "" [] task = "m" -> "none" [] OTHER -> ".json"
+Tasks == {"a", "a2", "b", "c", "d", "e", "f", "m", "n"}
 
 \* the key as a tree (H is applied by the binding): [params |-> text, inputs |-> <<[name, key tree of the input]>>]
 RECURSIVE KeyTree(_)
@@ -99,6 +104,14 @@ RECURSIVE KeyText(_)
 H(s) == "H(" \o s \o ")"
 KeyText(task) == RegistryRepr(ParamsOf(task)) \o "$$$" \o
                  JoinS([i \in 1..Len(InputsOf(task)) |-> InputsOf(task)[i][1] \o "=" \o H(KeyText(InputsOf(task)[i][2]))], "###")
+
+\* inputs from OTHER namespaces keep the namespace part that lies below the task's own namespace:
+\*   o (outer config) reads  xn::a  of a pipeline mounted as xn;  cmp reads  p1::a  and  p2::a  of two mounts
+ATree(v) == [params |-> "x=" \o ValueRepr(v), inputs |-> <<>>]
+OTree == [params |-> "None", inputs |-> <<[name |-> "xn::a", key |-> KeyTree("a")]>>]
+CmpTree(v1, v2) == [params |-> "None", inputs |-> <<[name |-> "p1::a", key |-> ATree(v1)], [name |-> "p2::a", key |-> ATree(v2)]>>]
+\* C03: swapping which mount carries which upstream computation is a different computation of cmp
+SwapDiffers == va # Int_(1) => CmpTree(va, Int_(1)) # CmpTree(Int_(1), va)
 
 \* location relative to the data directory: group levels / task name / key . ext ; side files beside it
 RelDir(task) == GroupOf(task) \o <<task>>
@@ -116,9 +129,14 @@ DefaultAbsent == zv = 1 => ~\E i \in 1..Len(ReprList(ParamsOf("b"))) : ReprList(
 \* C03 chain hash: the key text of every downstream task contains the (hashed) key text of a
 ChainHash == /\ KeyText("b") = RegistryRepr(ParamsOf("b")) \o "$$$a=" \o H(KeyText("a"))
              /\ KeyText("c") = "None$$$a=" \o H(KeyText("a")) \o "###g:b=" \o H(KeyText("b"))
+             /\ KeyText("n") = "None$$$m=" \o H("None$$$a=" \o H(KeyText("a")))     \* through an in-memory task
+             /\ KeyText("e") = "None$$$a=" \o H(KeyText("a")) \o "###a2=" \o H("None$$$")
+\* no persisted parameter at all is Python's None in the key text, not the empty string
+NoParamsIsNone == (zv = 1 => RegistryRepr(ParamsOf("f")) = "None") /\ RegistryRepr(ParamsOf("a2")) = "None"
 
 EmitCase == Emit => PrintT("@@" \o ToJson([tag |-> "K", va |-> va, yv |-> yv, zv |-> zv, repr |-> ValueRepr(va),
                             keys |-> [t \in Tasks |-> KeyTree(t)],
-                            dirs |-> [t \in Tasks |-> RelDir(t)], exts |-> [t \in Tasks |-> ExtOf(t)]]))
+                            dirs |-> [t \in Tasks |-> RelDir(t)], exts |-> [t \in Tasks |-> ExtOf(t)],
+                            xns |-> [o |-> OTree, cmp12 |-> CmpTree(va, Int_(1)), cmp21 |-> CmpTree(Int_(1), va)]]))
 
 =============================================================================
